@@ -66,6 +66,28 @@ pub fn install_panic_recorder() {
 	}));
 }
 
+/// Debugging aid: with VERIF_NET_TRACE set, the p2p crate's log lines go to stderr.
+struct StderrLog;
+impl log::Log for StderrLog {
+	fn enabled(&self, m: &log::Metadata) -> bool {
+		m.target().starts_with("grin_p2p") || m.target().starts_with("grin_servers")
+	}
+	fn log(&self, r: &log::Record) {
+		if self.enabled(r.metadata()) {
+			eprintln!("[{}] {} {}", std::thread::current().name().unwrap_or("?"), r.target(), r.args());
+		}
+	}
+	fn flush(&self) {}
+}
+static STDERR_LOG: StderrLog = StderrLog;
+
+pub fn maybe_trace() {
+	if std::env::var("VERIF_NET_TRACE").is_ok() {
+		let _ = log::set_logger(&STDERR_LOG);
+		log::set_max_level(log::LevelFilter::Debug);
+	}
+}
+
 pub fn take_panics() -> Vec<String> {
 	std::mem::take(&mut *PANICS.lock().unwrap())
 }
@@ -193,6 +215,7 @@ pub struct SimPeer {
 	pub undecodable: u64,
 	/// the simulated side's Codec refused a frame header written by the node
 	pub refused_frame: bool,
+	pub close_reason: String,
 	in_attachment: bool,
 	attachment_left: u64,
 	/// the node's `Peer` object for this connection
@@ -217,7 +240,8 @@ impl SimPeer {
 		if !self.alive {
 			return false;
 		}
-		if self.w.write_all(bytes).is_err() {
+		if let Err(e) = self.w.write_all(bytes) {
+			self.close_reason = format!("write: {:?}", e.kind());
 			self.alive = false;
 			return false;
 		}
@@ -241,6 +265,12 @@ impl SimPeer {
 	/// Read what the node wrote, up to the next Pong, the end of the connection, or a real-time budget
 	/// (harness watchdog only: the node answers within microseconds unless it hangs).
 	fn read_to_pong(&mut self, budget: Duration) -> ReadEnd {
+		self.read_until(budget, false)
+	}
+
+	/// `addrs_marker`: the barrier message was a GetPeerAddrs, its PeerAddrs answer ends the reading (used
+	/// when the frame under test is itself a Ping, whose Pong could not be told from the barrier's).
+	fn read_until(&mut self, budget: Duration, addrs_marker: bool) -> ReadEnd {
 		let t0 = Instant::now();
 		loop {
 			// a frame above the limit for its type (possible with the tiny block weight of the test
@@ -268,7 +298,8 @@ impl SimPeer {
 			}
 			let (res, _) = self.codec.read();
 			match res {
-				Ok(Message::Pong(_)) => return ReadEnd::Pong,
+				Ok(Message::Pong(_)) if !addrs_marker => return ReadEnd::Pong,
+				Ok(Message::PeerAddrs(_)) if addrs_marker => return ReadEnd::Pong,
 				Ok(Message::TxHashSetArchive(a)) => {
 					let meta = grin_p2p::types::AttachmentMeta {
 						size: a.bytes as usize,
@@ -301,7 +332,8 @@ impl SimPeer {
 								return ReadEnd::Stuck;
 							}
 						}
-						_ => {
+						k => {
+							self.close_reason = format!("read: {:?}", k);
 							self.alive = false;
 							return ReadEnd::Closed;
 						}
@@ -312,7 +344,8 @@ impl SimPeer {
 					// stream stays in step
 					self.undecodable += 1;
 				}
-				Err(_) => {
+				Err(e) => {
+					self.close_reason = format!("codec: {:?}", e);
 					// a frame header the simulated side's own Codec refuses (e.g. a frame above the limit
 					// for its type): the stream cannot be followed any further
 					self.refused_frame = true;
@@ -386,6 +419,7 @@ pub fn connect_inbound(node: &NetNode, id: usize, td: u64, height: u64, caps: Ca
 		outbound: false,
 		undecodable: 0,
 		refused_frame: false,
+		close_reason: String::new(),
 		in_attachment: false,
 		attachment_left: 0,
 		node_peer: Some(peer),
@@ -441,6 +475,7 @@ pub fn connect_outbound(node: &NetNode, id: usize, td: u64, height: u64, caps: C
 		outbound: true,
 		undecodable: 0,
 		refused_frame: false,
+		close_reason: String::new(),
 		in_attachment: false,
 		attachment_left: 0,
 		node_peer: Some(peer),
@@ -2177,6 +2212,7 @@ pub fn hostile_case(tier: &str, seed: u64, case: u64) -> CaseResult {
 	let thorough = tier == "thorough";
 	let mut res = CaseResult::new(case, seed);
 	install_panic_recorder();
+	maybe_trace();
 	grin_util::verif::set_pacing_off(true);
 	let mut world = match crate::wiresim::build_world(seed, 34) {
 		Ok(w) => w,
@@ -2296,7 +2332,20 @@ pub fn hostile_case(tier: &str, seed: u64, case: u64) -> CaseResult {
 			}
 			crate::alloc::reset();
 			peer.send_bytes(&f);
-			let r = barrier(std::slice::from_mut(&mut peer), Some(0));
+			// a frame that is itself a Ping may be answered with a Pong of its own: the barrier then uses
+			// another request / answer pair (GetPeerAddrs -> PeerAddrs); answers arrive in order
+			let r = if f.len() > 2 && f[2] == Type::Ping as u8 {
+				if peer.alive && peer.send(Type::GetPeerAddrs, grin_p2p::msg::GetPeerAddrs { capabilities: Capabilities::default() }) {
+					match peer.read_until(Duration::from_secs(30), true) {
+						ReadEnd::Stuck => Err("the connection neither answered nor closed within 30 s".to_string()),
+						_ => Ok(()),
+					}
+				} else {
+					Ok(())
+				}
+			} else {
+				barrier(std::slice::from_mut(&mut peer), Some(0))
+			};
 			let (_peak, max_req) = crate::alloc::stats();
 			res.runs += 1;
 			res.steps += 1;
@@ -2328,7 +2377,7 @@ pub fn hostile_case(tier: &str, seed: u64, case: u64) -> CaseResult {
 			if !peer.alive {
 				res.probe("net_hostile_connection_closed_by_node");
 			}
-			log.push(format!("{} {} -> alive {} answers {:?} att {}", name, what, peer.alive, inbox, peer.attachment.len()));
+			log.push(format!("{} {} -> alive {} answers {:?} att {}{}", name, what, peer.alive, inbox, peer.attachment.len(), if std::env::var("VERIF_NET_LOG").is_ok() && !peer.alive { format!(" [{}]", peer.close_reason) } else { String::new() }));
 			peer.attachment.clear();
 		}
 	}
@@ -2354,6 +2403,9 @@ pub fn hostile_case(tier: &str, seed: u64, case: u64) -> CaseResult {
 		}
 	}
 	res.probe("netsim_runs");
+	if let Ok(p) = std::env::var("VERIF_NET_LOG") {
+		let _ = std::fs::write(p, log.join("\n"));
+	}
 	res.run_digests.push((fnv64(log.join("\n").as_bytes()), true));
 	res.samples.push(json!({"engine": "netsim-hostile", "messages": msgs.len(), "log_head": log.iter().take(6).cloned().collect::<Vec<_>>()}));
 	if let Some(v) = violation {
